@@ -278,6 +278,7 @@ Definition check_powi (pra : positive) (exact_ok : bool) (B p s e n rs re : Z) (
   if n =? 0 then decide_exact B p 1 0 rs re fexact
   else if s =? 0 then (if 0 <? n then decide_exact B p 0 0 rs re fexact else VUndecided)
   else if exact_ok && (0 <? n) then decide_exact B p (s ^ n) (e * n) rs re fexact
+  else if Z.abs s =? 1 then decide_exact B p (s ^ Z.abs n) (e * n) rs re fexact   (* (+-B^e)^n is a float *)
   else if exact_ok && feq B (rs * s ^ (- n)) (re + e * (- n)) 1 0 then VAccept
   else if exact_ok && fexact then VReject
   else decide_encl pra' B p (T_powi pra' B s e n) (ival pra' B rs re) fexact.
